@@ -159,6 +159,8 @@ partial def parseOpts (j : Json) : R Opts := do
         | "FieldAppend" => .append | _ => .prepend
       pure (applyFieldOpt o h names)
     | "MetaData" => pure o
+    -- which struct tags Unpack reads: applied to the type description (TypedCodec.tagKeys), nothing else depends on them
+    | "StructTag" | "ValidatorTag" => pure o
     | "Env" =>
       let eo ← parseOpts ((optField e "opts").getD (.arr #[]))
       let d ← parseGoData ((optField e "v").getD .null)
